@@ -33,6 +33,8 @@ try:
         names = re.findall(r"^func (Test\w+)\(", src, re.M)
         pat = "^(" + "|".join(names) + ")$"
         race = "-race " if re.search(r"^//go:build race", src, re.M) else ""  # a demo that shows a data race
+        if meta.get("test_flags"):
+            race += meta["test_flags"] + " "  # e.g. -tags verbose
         rc_with, _ = run(f"go test {race}-vet=off -count=1 -run '{pat}' ./{demo_dir}/", W)
         run(f"git apply -R {d}/patch.diff", W)
         rc_wo, _ = run(f"go test {race}-vet=off -count=1 -run '{pat}' ./{demo_dir}/", W)
